@@ -169,3 +169,67 @@ Proof.
     + exists [invalid_seg]. split; [discriminate|reflexivity].
     + rewrite forallb_app, Hroot. reflexivity.
 Qed.
+
+(* ------------------------------------------------------------ conditional requests *)
+Lemma parse_range_some fx hv : parse_range fx (Some hv) <> PNone.
+Proof.
+  unfold parse_range.
+  destruct (fx && Nat.ltb (length (split_dash (strip_unit hv))) 2)%bool; [discriminate|].
+  destruct (parse_int (nth 0 (split_dash (strip_unit hv)) [])) as [s|]; [|discriminate].
+  destruct (split_dash (strip_unit hv)) as [|r0 [|r1 rs]]; try discriminate.
+  destruct r1 as [|c r1].
+  - destruct (s <? 0); discriminate.
+  - destruct (parse_int (c :: r1)) as [e|]; [|discriminate].
+    destruct ((s <? 0) || (negb (e =? EOD) && (e <? s)))%bool; discriminate.
+Qed.
+
+Lemma inm_match_true tag inm :
+  inm_match tag inm = true ->
+  exists m piece, inm = Some m /\ m <> [] /\ In piece (split_char 44 m) /\ trim_space piece = tag.
+Proof.
+  unfold inm_match. destruct inm as [m|]; [|discriminate]. destruct m as [|c m]; [discriminate|].
+  intros H. apply existsb_exists in H as (piece & Hin & Heq). apply str_eqb_eq in Heq.
+  exists (c :: m), piece. repeat split; try assumption. discriminate.
+Qed.
+
+Lemma handle_cond_spec hash cached h inm file :
+  zlen file <= max_int64 ->
+  match handle_cond hash true cached h inm file with
+  | NotModified t => h = None /\ t = etag hash file /\
+                     exists m piece, inm = Some m /\ m <> [] /\ In piece (split_char 44 m) /\ trim_space piece = t
+  | FullTag t body => h = None /\ t = etag hash file /\ body = file /\ inm_match t inm = false
+  | Plain o => h <> None /\ o = handle true cached h file /\ (forall b, o <> Full b) /\ o <> Panic
+  end.
+Proof.
+  intros Hsz. unfold handle_cond. destruct h as [hv|].
+  - pose proof (parse_range_some true hv) as Hn.
+    pose proof (handle_exact cached (Some hv) file Hsz) as Hex.
+    pose proof (handle_no_panic cached (Some hv) file Hsz) as Hnp.
+    unfold handle in *.
+    destruct (parse_range true (Some hv)) as [| | |s e] eqn:E; try contradiction.
+    + split; [discriminate|]. split; [reflexivity|]. split; [|exact Hnp]. intros b. rewrite Hex. discriminate.
+    + split; [discriminate|]. split; [reflexivity|]. split; [|exact Hnp].
+      intros b. destruct (spec_range s e (zlen file)) as [[a b']|].
+      * destruct Hex as [-> _]. discriminate.
+      * rewrite Hex. discriminate.
+  - cbn [parse_range]. destruct (inm_match (etag hash file) inm) eqn:M.
+    + split; [reflexivity|]. split; [reflexivity|]. apply inm_match_true. exact M.
+    + repeat split; auto.
+Qed.
+
+Lemma etag_inj hash : (forall a b, hash a = hash b -> a = b) -> forall a b, etag hash a = etag hash b -> a = b.
+Proof.
+  intros Hinj a b H. unfold etag in H. injection H as H. apply app_inv_tail in H. auto.
+Qed.
+
+(* a 304 means: one of the validators the client presented is the tag of the content being served now;
+   if every presented validator is the tag of a copy the client holds, the client holds the current content *)
+Lemma not_modified_current hash cached h m file olds :
+  (forall a b, hash a = hash b -> a = b) -> zlen file <= max_int64 ->
+  (forall piece, In piece (split_char 44 m) -> exists old, In old olds /\ trim_space piece = etag hash old) ->
+  (exists t, handle_cond hash true cached h (Some m) file = NotModified t) -> In file olds.
+Proof.
+  intros Hinj Hsz Hold [t Ht]. pose proof (handle_cond_spec hash cached h (Some m) file Hsz) as S.
+  rewrite Ht in S. destruct S as (_ & -> & m' & piece & Hm & _ & Hin & Htrim). injection Hm as <-.
+  destruct (Hold piece Hin) as (old & Hino & Ho). rewrite Ho in Htrim. apply (etag_inj hash Hinj) in Htrim. subst. exact Hino.
+Qed.
